@@ -353,6 +353,17 @@ TARGETS = {
         ('fun', 'cover_constraint_image_sizing', 'cover_constraint_image_sizing', {}),
         ('fun', 'default_image_sizing', 'default_image_sizing', {}),
     ]),
+    'GenBoxes': ('weasyprint/formatting_structure/boxes.py', [
+        ('fun', 'Box.padding_width', 'padding_width', {}),
+        ('fun', 'Box.padding_height', 'padding_height', {}),
+        ('fun', 'Box.border_width', 'border_width', {}),
+        ('fun', 'Box.border_height', 'border_height', {}),
+        ('fun', 'Box.margin_width', 'margin_width', {}),
+        ('fun', 'Box.margin_height', 'margin_height', {}),
+    ]),
+    'GenFloat': ('weasyprint/layout/float.py', [
+        ('fun', 'get_clearance', 'get_clearance', {}),
+    ]),
     'GenAbsolute': ('weasyprint/layout/absolute.py', [
         ('fun', 'absolute_width', 'absolute_width', {'callable': False}),
         ('fun', 'absolute_height', 'absolute_height', {'callable': False}),
